@@ -398,6 +398,80 @@ fn check_expr(run: &Run, c: &ExprCase, calib: Option<&Calib>, l: &mut Local) {
     }
 }
 
+
+// ------------------------------------------------------------------ commutativity (metamorphic, no semantics needed)
+
+const WRAPPERS: &[(&str, &str)] = &[("", ""), ("(", ")"), ("deg(", ")"), ("rad(", ")"), ("-(", ")"), ("2*(", ")"), ("deg((", "))"), ("rad(1 + (", "))")];
+
+fn commute_case_json(a: &str, b: &str, op: char, w: usize, tag: Tag, ctx: Ctx, target: Target) -> Value {
+    json!({"kind": "commute", "a": a, "b": b, "op": op.to_string(), "wrapper": w, "tag": tag.source(), "ctx": ctx.name(), "target": target.name()})
+}
+
+fn same_outcome(x: &Result<Num, serde_saphyr::Error>, y: &Result<Num, serde_saphyr::Error>) -> bool {
+    match (x, y) {
+        (Err(_), Err(_)) => true,
+        (Ok(Num::F64(a)), Ok(Num::F64(b))) => dump::f64s(*a) == dump::f64s(*b),
+        (Ok(Num::F32(a)), Ok(Num::F32(b))) => dump::f32s(*a) == dump::f32s(*b),
+        _ => false,
+    }
+}
+
+/// IEEE-754 `+` and `*` are commutative bit for bit (NaN as a class), so `W(A op B)` and
+/// `W(B op A)` must give the identical result or both fail - whatever A and B mean,
+/// including the classes the reference model leaves unspecified. `a` and `b` must be
+/// renderable on either side of `op` (primary / signed for `*`, no bare `+ -` chain for `+`).
+fn check_commute(run: &Run, a: &str, b: &str, op: char, w: usize, tag: Tag, ctx: Ctx, l: &mut Local) {
+    let (pre, post) = WRAPPERS[w % WRAPPERS.len()];
+    let t1 = format!("{pre}{a} {op} {b}{post}");
+    let t2 = format!("{pre}{b} {op} {a}{post}");
+    let (Some(d1), Some(d2)) = (build(&t1, tag, ctx, 0), build(&t2, tag, ctx, 0)) else {
+        run.inconclusive("generator-invalid: raw parser does not confirm the scalar document");
+        return;
+    };
+    for target in [Target::F64, Target::F32] {
+        run.evals(2);
+        let case = || commute_case_json(a, b, op, w, tag, ctx, target);
+        let (r1, r2) = match (lib_eval(&d1, ctx, target, true, false), lib_eval(&d2, ctx, target, true, false)) {
+            (Err(p), _) | (_, Err(p)) => {
+                vio(run, &format!("C19:panic:{}", panic_site(&p)), case(), p);
+                continue;
+            }
+            (Ok(x), Ok(y)) => (x, y),
+        };
+        if same_outcome(&r1, &r2) {
+            l.count(if r1.is_ok() { "commute/both_ok_identical" } else { "commute/both_err" });
+            if r1.is_ok() {
+                run.nontrivial(fnv_parts(&[d1.as_bytes(), d2.as_bytes(), target.name().as_bytes(), b"commute"]));
+            }
+            continue;
+        }
+        // exception: an operand that is itself rejected in this context
+        let alone = |x: &str| build(&format!("{pre}{x}{post}"), tag, ctx, 0).is_some_and(|d| matches!(lib_eval(&d, ctx, target, true, false), Ok(Ok(_))));
+        // (under !degrees a lone bare or lone unitized operand is fine while the mix is rejected in both orders,
+        //  so a rejected operand can only explain an asymmetry, never create a false alarm)
+        let tag_for_alone_ok = alone(a) && alone(b);
+        if !tag_for_alone_ok {
+            l.count("unspecified/commutativity-operand-rejected-alone");
+            continue;
+        }
+        let show = |r: &Result<Num, serde_saphyr::Error>| match r {
+            Ok(v) => v.show(),
+            Err(e) => format!("Err({})", err_label(e)),
+        };
+        vio(
+            run,
+            "C19:commutativity:operand-order-changes-result",
+            case(),
+            format!("`{t1}` -> {} ; `{t2}` -> {}", show(&r1), show(&r2)),
+        );
+    }
+}
+
+const COMMUTE_FIXED: &[&str] = &[
+    "1:30", "rad(0)", "deg(1)", "2", "pi", "deg(1:30)", "rad(1:30)", "deg(rad(1))", "0:0:30.5", "(1+2)", "-3", "rad(deg(2))", ".inf", "1e3",
+    "deg(rad(0) + 1:30)", "12:00:00", "rad(deg(1:30))", "0.1",
+];
+
 // ------------------------------------------------------------------ plain literals: option on vs off
 
 fn plain_case_json(text: &str, docu: &str, target: &str) -> Value {
@@ -941,6 +1015,10 @@ fn replay(run: &Run, case: &Value) {
                 std::process::exit(2);
             }
         },
+        "commute" => {
+            let op = s("op").chars().next().unwrap_or('+');
+            check_commute(run, &s("a"), &s("b"), op, case["wrapper"].as_u64().unwrap_or(0) as usize, Tag::from_source(&s("tag")), Ctx::from_name(&s("ctx")), &mut l);
+        }
         "smoke" => {
             run_smoke(run, case["index"].as_u64().map(|i| i as usize));
         }
@@ -1216,6 +1294,37 @@ fn real_main(run: Run) {
     }
 
     mark(&run, "targeted families");
+    // ---- 3b. commutativity of + and * (holds for every class, also the unspecified ones)
+    {
+        let tags = [Tag::None, Tag::Degrees, Tag::Radians, Tag::Float];
+        let nf = COMMUTE_FIXED.len();
+        par_chunks(&run, nf * nf, 8, |i, l| {
+            let (a, b) = (COMMUTE_FIXED[i / nf], COMMUTE_FIXED[i % nf]);
+            if i / nf >= i % nf {
+                return; // unordered pairs, a != b
+            }
+            for w in 0..WRAPPERS.len() {
+                for op in ['+', '*'] {
+                    for tag in tags {
+                        check_commute(&run, a, b, op, w, tag, Ctx::Root, l);
+                    }
+                }
+            }
+        });
+        let n_comm = tier.pick(60_000, 1_000_000);
+        par_chunks(&run, n_comm, 256, |i, l| {
+            let mut rng = Rng::stream(seed ^ 0x66, i as u64);
+            let op = if rng.bool() { '+' } else { '*' };
+            let mp = if op == '+' { 1 } else { 2 };
+            let a = exprgen::gen_operand(&mut rng, mp);
+            let b = exprgen::gen_operand(&mut rng, mp);
+            let w = rng.below(WRAPPERS.len());
+            let tag = *rng.pick(&[Tag::None, Tag::None, Tag::Degrees, Tag::Radians, Tag::Float, Tag::Other]);
+            let ctx = *rng.pick(&[Ctx::Root, Ctx::Root, Ctx::Seq, Ctx::Map]);
+            check_commute(&run, &a, &b, op, w, tag, ctx, l);
+        });
+    }
+    mark(&run, "commutativity");
     // ---- 4. ordinary literals: option on vs off (f32 / f64 / untyped)
     let mut literal_docs: Vec<String>; // also the corpus for the cross-build dump
     {
@@ -1362,12 +1471,12 @@ fn real_main(run: Run) {
         "(a) every concatenation of 1..={len_a} tokens from {TOKENS_A:?} under tags none/!degrees/!radians, targets f64+f32; \
          (b) every concatenation of 1..={len_b} tokens from {TOKENS_B:?} (number / underscore / exponent / sexagesimal lexing); \
          (c) every parenthesis / function nesting depth 1..=300 in six shapes; (d) every insertion of one or two underscores into 12 base numbers; \
-         (e) every minutes x seconds pair 0..=99 x 0..=99 in four sexagesimal shapes; (f) the unit x bare-term x operator x tag grid"
+         (e) every minutes x seconds pair 0..=99 x 0..=99 in four sexagesimal shapes; (f) the unit x bare-term x operator x tag grid; (g) operand swap of + and * for every unordered pair of 18 fixed operands x 8 wrappers x 4 tags"
     );
     let fin = Finish::new(
         "a case is non-trivial when the reference model gives a verdict (value or documented error) that the library met and the text \
          contains >= 1 operator / parenthesis / function / sexagesimal form, or when it is a double-rounding witness (decimal string within \
-         one f64 half-ulp of an f32 midpoint) compared on vs off, or a long/deep family member with a definite expectation; distinct by \
+         one f64 half-ulp of an f32 midpoint) compared on vs off, or a long/deep family member with a definite expectation, or an operand-swapped pair (A op B vs B op A) both accepted with identical bits; distinct by \
          hash(document, target, option set)",
     )
     .exhaustive(scope)
